@@ -92,7 +92,23 @@ fn strat(bits: usize) -> BoxedStrategy<Case> {
         }
         (limbs_of(&q, n), limbs_of(&k, n), 3u64)
     });
-    (prop_oneof![5 => indep, 2 => boundary, 2 => near, 1 => maxk], list)
+    // related operands: a * a (a squaring shortcut would only see these), a * (a +- 1), a * !a,
+    // and the identities a * 1, a * MAX (= -a), a * 2^k
+    let related = (shaped(bits), 0u8..7, 0..bits).prop_map(move |(a, k, sh)| {
+        let two = pow2(bits);
+        let ab = big(&a);
+        let b = match k {
+            0 => ab.clone(),
+            1 => (&ab + 1u32) % &two,
+            2 => (&ab + &two - 1u32) % &two,
+            3 => &two - 1u32 - &ab,
+            4 => BigUint::one() % &two,
+            5 => &two - 1u32,
+            _ => pow2(sh),
+        };
+        (a, limbs_of(&b, n), 4u64)
+    });
+    (prop_oneof![5 => indep, 2 => boundary, 2 => near, 1 => maxk, 2 => related], list)
         .prop_map(|((a, b, k), list)| {
             let mut c = Case::new().l(a).l(b);
             for x in list {
@@ -134,7 +150,7 @@ fn body<const B: usize, const L: usize>(c: &Case, rec: &mut Rec) -> R {
     let p = &ab * &bb;
     let of = p >= m;
     let w: U<B, L> = mkb(&(&p % &m));
-    rec.class(match c.n.last() { Some(0) => "gen:independent", Some(1) => "gen:boundary", Some(2) => "gen:near_2^BITS", Some(3) => "gen:max_div_k", _ => "gen:enum" });
+    rec.class(match c.n.last() { Some(0) => "gen:independent", Some(1) => "gen:boundary", Some(2) => "gen:near_2^BITS", Some(3) => "gen:max_div_k", Some(4) => "gen:related", _ => "gen:enum" });
     rec.class(match L { 0 => "limbs=0", 1 => "limbs=1", 2 => "limbs=2", 3 => "limbs=3", 4 => "limbs=4", _ => "limbs>=5" });
     let sa = shape_classes(rec, a.as_limbs());
     let sb = shape_classes(rec, b.as_limbs());
@@ -246,7 +262,7 @@ macro_rules! reg_wide {
 fn main() {
     let spec = PropSpec {
         id: "C02",
-        rule_text: "operand pairs per width from 4 generator classes (independent values with prescribed zero-limb shapes: zero low / high / middle limbs, single bits, 2^k+-1, boundary alphabet; boundary products 2^i * (2^(BITS-i)+{-1,0,1}); a*b within +-1 of 2^BITS by construction b=floor|ceil((2^BITS+d)/a); (MAX/k)*k) plus extra values for iterator products (slice, copied, filter, from_fn, chain, into_iter, rev iterators); * through all six operator shapes; widening_mul over a grid of 24 (BITS,BITS_RHS) pairs; exhaustive enumeration of all pairs for BITS <= 8 and of all pairs of values whose limbs come from {0,1,2,2^63-1,2^63,2^63+1,MAX-1,MAX} (2-3 limbs) or {0,1,2^63,MAX-1,MAX} (4 limbs) at 8 widths. Oracle: num-bigint a*b, mod 2^BITS, exact overflow predicate; inv_ring validity a*x = 1 mod 2^BITS with x canonical, Some iff a odd and BITS>0. Non-trivial: both operands non-zero and (an operand has a zero limb at either end or in the middle, or the product overflows, or the product is wider than one limb); distinct by (rule,width,a,b).",
+        rule_text: "operand pairs per width from 5 generator classes (related operands b in {a, a+-1, !a, 1, MAX, 2^k}; independent values with prescribed zero-limb shapes: zero low / high / middle limbs, single bits, 2^k+-1, boundary alphabet; boundary products 2^i * (2^(BITS-i)+{-1,0,1}); a*b within +-1 of 2^BITS by construction b=floor|ceil((2^BITS+d)/a); (MAX/k)*k) plus extra values for iterator products (slice, copied, filter, from_fn, chain, into_iter, rev iterators); * through all six operator shapes; widening_mul over a grid of 24 (BITS,BITS_RHS) pairs; exhaustive enumeration of all pairs for BITS <= 8 and of all pairs of values whose limbs come from {0,1,2,2^63-1,2^63,2^63+1,MAX-1,MAX} (2-3 limbs) or {0,1,2^63,MAX-1,MAX} (4 limbs) at 8 widths. Oracle: num-bigint a*b, mod 2^BITS, exact overflow predicate; inv_ring validity a*x = 1 mod 2^BITS with x canonical, Some iff a odd and BITS>0. Non-trivial: both operands non-zero and (an operand has a zero limb at either end or in the middle, or the product overflows, or the product is wider than one limb); distinct by (rule,width,a,b).",
         assumptions: vec![
             "num-bigint arithmetic is correct (oracle)",
             "x86-64 little-endian target; fixed width grid and fixed (BITS,BITS_RHS) pair grid",
